@@ -268,6 +268,10 @@ int func_freevar_emit(freevar * value, int stack_level, module * module_value,
 
         bytecode_add(module_value->code, &bc);
         break;
+    case FREEVAR_FUNC_SELF:
+        /* as a reference to the enclosing nested function inside its own body */
+        expr_id_func_nest_emit(value->src.func_value, stack_level, module_value, result);
+        break;
     }
 
     return 0;
